@@ -20,15 +20,19 @@ ALIASES = ['p', 'q', 'r', 's', 'u', 'v']
 
 class Q:
     """a generated query: text with and without the top-level LIMIT/OFFSET, and what fixes the order"""
-    def __init__(self, kind, catalog, body, order_pos=(), order_sql='', limit=None, offset=None, tables=(), feats=()):
+    def __init__(self, kind, catalog, body, order_pos=(), order_sql='', limit=None, offset=None, tables=(), feats=(),
+                 ref_body=None):
         self.kind, self.catalog, self.body = kind, catalog, body
         self.order_pos, self.order_sql, self.limit, self.offset = list(order_pos), order_sql, limit, offset
         self.tables = list(tables)
         self.feats = list(feats)
+        # the same query as the single reference engine (sqlite) reads it, when the spelling differs (parenthesised
+        # operands of set operations, `OFFSET n` without LIMIT)
+        self.ref_body = ref_body
 
     @property
     def nolimit_sql(self):
-        return self.body + self.order_sql
+        return (self.ref_body or self.body) + self.order_sql
 
     @property
     def sql(self):
@@ -42,12 +46,13 @@ class Q:
     def to_json(self):
         return dict(kind=self.kind, catalog=self.catalog, body=self.body, order_pos=self.order_pos,
                     order_sql=self.order_sql, limit=self.limit, offset=self.offset,
-                    tables=[list(t) for t in self.tables], feats=self.feats)
+                    tables=[list(t) for t in self.tables], feats=self.feats, ref_body=self.ref_body)
 
     @staticmethod
     def from_json(d):
         return Q(d['kind'], d['catalog'], d['body'], [tuple(p) if isinstance(p, list) else p for p in d['order_pos']],
-                 d['order_sql'], d['limit'], d['offset'], [tuple(t) for t in d['tables']], d.get('feats', ()))
+                 d['order_sql'], d['limit'], d['offset'], [tuple(t) for t in d['tables']], d.get('feats', ()),
+                 d.get('ref_body'))
 
 
 # ----------------------------------------------------------------------------- pieces
@@ -655,16 +660,290 @@ def gen_api(rng, cat):
     return Q('api', cat, body, op, osql, lim, off, [it], feats)
 
 
+# ----------------------------------------------------------------------------- select lists with aggregates at any depth
+AGG_NAMES = ['count', 'sum', 'min', 'max', 'COUNT', 'Sum', 'MIN', 'Max', 'avg']
+
+
+def row_expr(rng, cols, depth):
+    """a row-level (aggregate-free) expression over the column texts `cols`"""
+    r = rng.random()
+    if depth <= 0 or r < 0.35:
+        return rng.choice(cols) if rng.random() < 0.8 else str(rng.randrange(3))
+    a, b = row_expr(rng, cols, depth - 1), row_expr(rng, cols, depth - 1)
+    if r < 0.55:
+        return '%s %s %s' % (paren(a), rng.choice(['+', '-', '*']), paren(b))
+    if r < 0.65:
+        return 'abs(%s)' % a
+    if r < 0.75:
+        return 'coalesce(%s, %s)' % (a, b)
+    if r < 0.85:
+        return 'CAST(%s AS integer)' % a
+    return 'CASE WHEN %s %s %s THEN %s ELSE %s END' % (paren(a), rng.choice(CMP), paren(b), rng.choice(cols), rng.randrange(3))
+
+
+def paren(e):
+    return '(%s)' % e if ' ' in e and not e.startswith('CASE') and not e.startswith('CAST') else e
+
+
+def agg_call(rng, cols):
+    f = rng.choice(AGG_NAMES)
+    if f.lower() == 'count' and rng.random() < 0.5:
+        return '%s(*)' % f
+    return '%s(%s)' % (f, row_expr(rng, cols, rng.choice([0, 0, 1])))
+
+
+def nested_agg(rng, cols, depth):
+    """an expression whose aggregate call(s) are NOT the top node: operand of arithmetic / comparison, argument of a scalar
+    function or of CAST, condition / result / default of CASE"""
+    a = agg_call(rng, cols) if depth <= 1 or rng.random() < 0.6 else nested_agg(rng, cols, depth - 1)
+    k = str(rng.randrange(3))
+    r = rng.random()
+    if r < 0.2:
+        return '%s %s %s' % ((paren(a), rng.choice(['+', '-', '*']), k) if rng.random() < 0.5 else (k, rng.choice(['+', '-', '*']), paren(a)))
+    if r < 0.35:
+        return '%s %s %s' % (paren(a), rng.choice(['+', '-']), paren(agg_call(rng, cols)))
+    if r < 0.5:
+        return 'CAST(%s AS integer)' % a
+    if r < 0.62:
+        return 'abs(%s)' % a
+    if r < 0.74:
+        return 'coalesce(%s, %s)' % ((a, k) if rng.random() < 0.7 else (rng.choice(['NULL', k]), a))
+    if r < 0.82:
+        return 'CASE WHEN %s %s %s THEN %s ELSE %s END' % (paren(a), rng.choice(CMP), k, rng.randrange(3), rng.randrange(3))
+    if r < 0.9:
+        return 'CASE WHEN 1 = %s THEN %s ELSE %s END' % (rng.randrange(2), a, k)
+    if r < 0.95:
+        return 'CASE WHEN 0 = %s THEN %s ELSE %s END' % (rng.randrange(2), k, a)
+    return '%s %s %s' % (paren(a), rng.choice(CMP), k)
+
+
+def agg_select_list(rng, cols):
+    """(target texts, feature): an aggregated select list without GROUP BY; in 'agg-nested-only' NO entry is a bare aggregate"""
+    n = rng.choice([1, 1, 2, 2, 3])
+    r = rng.random()
+    if r < 0.55:
+        tg, f = [nested_agg(rng, cols, rng.choice([1, 1, 2])) for _ in range(n)], 'agg-nested-only'
+    elif r < 0.85:
+        tg = [nested_agg(rng, cols, rng.choice([1, 2]))] + [agg_call(rng, cols) for _ in range(n - 1)]
+        rng.shuffle(tg)
+        f = 'agg-nested-and-top'
+    else:
+        tg, f = [agg_call(rng, cols) for _ in range(n)], 'agg-top'
+    if rng.random() < 0.35:
+        # entries without any column (constants) may stand anywhere beside the aggregates, also first
+        for _ in range(rng.choice([1, 1, 2])):
+            tg.insert(rng.randrange(len(tg) + 1), row_expr(rng, [str(rng.randrange(3)), 'NULL'], rng.choice([0, 1])))
+        f += '+const'
+    return tg, f
+
+
+def gen_aggnest(rng, cat):
+    """select-list shapes (aggregate calls at any depth / row-level expressions) x the paths that push LIMIT down: joins whose
+    limit pushdown is enabled (LEFT JOIN chains, WHERE absent or evaluated in the first fetch), also other join kinds, and
+    selects from an api-type integration"""
+    if cat == 'api3' and rng.random() < 0.6:
+        return gen_aggnest_api(rng, cat)
+    feats = ['aggnest']
+    n = 2 if rng.random() < 0.75 else 3
+    ts = pick_tables(rng, n, cat)
+    als = rng.sample(ALIASES, n)
+    quals = [a + '.' for a in als]
+    frm = table_ref(rng, cat, ts[0], als[0])
+    for k in range(1, n):
+        jk = rng.choice(['LEFT JOIN', 'LEFT JOIN', 'LEFT JOIN', 'LEFT JOIN', 'LEFT OUTER JOIN', 'JOIN', 'INNER JOIN', 'RIGHT JOIN', 'FULL JOIN'])
+        feats.append('join:' + jk)
+        j = rng.randrange(k)
+        frm += ' %s %s ON %s%s = %s%s' % (jk, table_ref(rng, cat, ts[k], als[k]), quals[k], rng.choice(['id', 'id', 'id', 'x']),
+                                        quals[j], rng.choice(['id', 'id', 'id', 'x']))
+    where = ''
+    r = rng.random()
+    if r < 0.3:
+        where = ' WHERE %s%s %s %d' % (quals[0], rng.choice(COLS), rng.choice(CMP), rng.randrange(3))
+        feats.append('where')
+    elif r < 0.4:
+        where = ' WHERE ' + tree(rng, quals, feats, 1, allow_sub=False)
+        feats.append('where')
+    cols = ['%s%s' % (q, c) for q in quals for c in COLS]
+    if rng.random() < 0.6:
+        tg, f = agg_select_list(rng, cols)
+        feats.append(f)
+        names = [None] * len(tg)          # one result row: nothing to order
+    else:
+        feats.append('rowexpr')
+        tg = [row_expr(rng, cols, rng.choice([1, 1, 2])) for _ in range(rng.choice([1, 2, 2, 3]))]
+        names = ['k%d' % i for i in range(len(tg))]
+    tg = ['%s AS k%d' % (t, i) for i, t in enumerate(tg)]
+    body = 'SELECT %s FROM %s%s' % (', '.join(tg), frm, where)
+    op, osql, _, _ = order_limit(rng, len(names), names, feats, 0.3, 0.0)
+    lim = rng.choice([1, 1, 1, 2, 2, 3, 0])
+    off = rng.choice([None, None, None, 0, 1])
+    feats.append('limit')
+    return Q('aggnest', cat, body, op, osql, lim, off, ts, feats)
+
+
+def gen_aggnest_api(rng, cat):
+    feats = ['aggnest', 'api']
+    it = rng.choice([('int3', 'te'), ('int3', 'tf')])
+    w = ''
+    if rng.random() < 0.4:
+        w = ' WHERE %s %s %d' % (rng.choice(COLS), rng.choice(CMP), rng.randrange(3))
+    if rng.random() < 0.75:
+        tg, f = agg_select_list(rng, COLS)
+        feats.append(f)
+        names = [None] * len(tg)
+    else:
+        feats.append('rowexpr')
+        tg = [row_expr(rng, COLS, rng.choice([1, 1, 2])) for _ in range(rng.choice([1, 2]))]
+        names = ['k%d' % i for i in range(len(tg))]
+    tg = ['%s AS k%d' % (t, i) for i, t in enumerate(tg)]
+    body = 'SELECT %s FROM %s%s' % (', '.join(tg), table_ref(rng, cat, it, None), w)
+    op, osql, _, _ = order_limit(rng, len(names), names, feats, 0.3, 0.0)
+    lim = rng.choice([1, 1, 2, 2, 3, 0])
+    off = rng.choice([None, None, None, 1])
+    feats.append('limit')
+    return Q('aggnest', cat, body, op, osql, lim, off, [it], feats)
+
+
+# ----------------------------------------------------------------------------- set operations with windowed / DISTINCT / grouped operands
+SETOPS = ['UNION', 'UNION', 'UNION ALL', 'INTERSECT', 'INTERSECT', 'EXCEPT', 'EXCEPT']
+
+
+def total_order(rng, names):
+    """ORDER BY over ALL output columns (random order and directions): rows that tie are equal, so the rows at any
+    LIMIT / OFFSET window are fixed by the query"""
+    idx = list(range(len(names)))
+    rng.shuffle(idx)
+    return ' ORDER BY ' + ', '.join(names[i] + rng.choice(['', '', ' DESC', ' ASC']) for i in idx)
+
+
+def window(rng, maxrows):
+    """(limit, offset): every combination, OFFSET without LIMIT included"""
+    r = rng.random()
+    if r < 0.4:
+        return None, rng.choice([1, 1, 2, 2, 3])
+    if r < 0.7:
+        return rng.choice([1, 2, 2, 3]), rng.choice([1, 1, 2])
+    return rng.choice([1, 2, 2, 3]), None
+
+
+def setop_operand(rng, cat, it, k, feats, maxrows=4):
+    """one operand with k output columns: (mindsdb text, sqlite text, needs parentheses)"""
+    r = rng.random()
+    if r < 0.15 and 'operand:join' not in feats:      # at most one join operand (the cause analysis reads one join chain)
+        # the operand is itself a federated join
+        other = rng.choice([t for t in TABLES if t[0] != it[0]])
+        jk = rng.choice(['LEFT JOIN', 'LEFT JOIN', 'JOIN'])
+        cols = rng.sample([a + c for a in ('p.', 'q.') for c in COLS], k)      # no output column twice
+        base = 'SELECT %s%s FROM %s %s %s ON p.id = q.id' % (rng.choice(['', '', 'DISTINCT ']), ', '.join(cols), table_ref(rng, cat, it, 'p'), jk,
+                                                              table_ref(rng, cat, other, 'q'))
+        feats.append('operand:join')
+        names = cols
+        extra = [other]
+    else:
+        extra = []
+        cols = rng.sample(COLS, k)
+        w = ''
+        if rng.random() < 0.2:
+            w = ' WHERE %s %s %d' % (rng.choice(COLS), rng.choice(CMP), rng.randrange(3))
+        r2 = rng.random()
+        if r2 < 0.15 and k >= 2:
+            g = cols[:k - 1]
+            base = 'SELECT %s, count(*) AS n FROM %s%s GROUP BY %s' % (', '.join(g), table_ref(rng, cat, it, None), w, ', '.join(g))
+            names = g + ['n']
+            feats.append('operand:group')
+        else:
+            d = ''
+            if r2 < 0.4:
+                d = 'DISTINCT '
+                feats.append('operand:distinct')
+            base = 'SELECT %s%s FROM %s%s' % (d, ', '.join(cols), table_ref(rng, cat, it, None), w)
+            names = cols
+    r = rng.random()
+    if r < 0.25:
+        return base, base, False, extra
+    if r < 0.35:
+        feats.append('operand:order')
+        t = base + total_order(rng, names)
+        return t, t, True, extra
+    if r < 0.42:
+        # a window that keeps everything / nothing needs no order
+        lim, off = rng.choice([(maxrows + 3, None), (0, None), (None, 0), (maxrows + 3, 0)])
+        feats.append('operand:trivial-window')
+        o = ''
+    else:
+        lim, off = window(rng, maxrows)
+        o = total_order(rng, names)
+        feats.append('operand:offset-only' if lim is None else ('operand:limit-offset' if off is not None else 'operand:limit'))
+    m = base + o + ('' if lim is None else ' LIMIT %d' % lim) + ('' if off is None else ' OFFSET %d' % off)
+    s = base + o + (' LIMIT %d' % (-1 if lim is None else lim)) + ('' if off is None else ' OFFSET %d' % off)
+    return m, s, True, extra
+
+
+def gen_setops(rng, cat):
+    """UNION [ALL] / INTERSECT / EXCEPT across integrations whose operands carry every combination of DISTINCT / GROUP BY /
+    ORDER BY / LIMIT / OFFSET (meant to be run on contents with duplicate rows: feature 'dups')"""
+    feats = ['setops', 'dups']
+    n = 2 if rng.random() < 0.7 else 3
+    ts = pick_tables(rng, n, cat)
+    if len({i for i, _ in ts}) == 1:
+        ts[-1] = rng.choice([t for t in TABLES if t[0] != ts[0][0]])
+    k = rng.choice([1, 1, 2, 2, 3])
+    tabs = list(ts)
+    ops = []
+    for it in ts:
+        m, s, par, extra = setop_operand(rng, cat, it, k, feats)
+        tabs += [e for e in extra if e not in tabs]
+        ops.append(('(%s)' % m if par or rng.random() < 0.2 else m, 'SELECT * FROM (%s)' % s if par else s))
+    o1 = rng.choice(SETOPS)
+    feats.append('setop:' + o1)
+    if n == 2:
+        body = '%s %s %s' % (ops[0][0], o1, ops[1][0])
+        ref = '%s %s %s' % (ops[0][1], o1, ops[1][1])
+    else:
+        o2 = rng.choice(SETOPS)
+        feats.append('setop:' + o2)
+        if rng.random() < 0.5:
+            feats.append('setop3-left')
+            body = '%s %s %s %s %s' % (ops[0][0], o1, ops[1][0], o2, ops[2][0])
+            ref = '%s %s %s %s %s' % (ops[0][1], o1, ops[1][1], o2, ops[2][1])
+        else:
+            feats.append('setop3-right')
+            body = '%s %s (%s %s %s)' % (ops[0][0], o1, ops[1][0], o2, ops[2][0])
+            ref = '%s %s SELECT * FROM (%s %s %s)' % (ops[0][1], o1, ops[1][1], o2, ops[2][1])
+    return Q('setops', cat, body, tables=tabs, feats=feats, ref_body=ref)
+
+
+def gen_contents_dups(rng, tables, maxrows):
+    """contents for set operations: several rows per table, few distinct values (duplicate rows inside a table and rows
+    shared between tables), some NULLs"""
+    out = {}
+    for it in tables:
+        n = rng.choice([maxrows, maxrows, maxrows - 1, maxrows - 2, 0]) if maxrows >= 2 else rng.randrange(maxrows + 1)
+        vals = rng.choice([[0, 1], [0, 1], [0, 1, 2], [1, 2], [None, 1], [0, 0, 1, None]])
+        rows = []
+        for _ in range(max(n, 0)):
+            if rows and rng.random() < 0.35:
+                rows.append(rng.choice(rows))
+            else:
+                rows.append((rng.choice([1, 1, 2]), rng.choice(vals), rng.choice(vals)))
+        out[it] = rows
+    return out
+
+
 def gen_query(rng):
     r = rng.random()
     cat = rng.choice(['names', 'names', 'default', 'project', 'api3'])
     if r < 0.07:
         return gen_orderlimit(rng, cat)
-    if r < 0.17:
+    if r < 0.16:
         return gen_chain(rng, cat)
-    if r < 0.55:
+    if r < 0.24:
+        return gen_aggnest(rng, cat)
+    if r < 0.32:
+        return gen_setops(rng, cat)
+    if r < 0.58:
         return gen_join(rng, cat)
-    if r < 0.68:
+    if r < 0.70:
         return gen_insub(rng, cat)
     if r < 0.78:
         return gen_union(rng, cat)
